@@ -22,6 +22,7 @@ DECIDED = [
     '(v1 <> v0, t1 <> t0), and equal measurements are rejected',
     'R4 the solver launches with ammo.get_velocity_for_temp(atmo.powder_temp) in fps, never reads ammo.mv, and '
     'Atmo keeps the given powder temperature, falling back to the air temperature only when none is given',
+    'R3b / R4b the calibration is evaluated with the sensitivity switch on and off on an ammunition that already carries a modifier; with neither air nor powder temperature given the powder is at the air temperature the Atmo object itself reports',
 ]
 NOT_DECIDED = ['nothing further']
 
